@@ -6,6 +6,7 @@ logic, of the parser's expression / type core and of string quoting), tables reg
 Verif.Gen.PrecTables.  Lemmas: Verif.Proofs.Pratt.
 -/
 import Verif.Proofs.Pratt
+import Verif.Proofs.PrattTy
 namespace Verif.Properties.C38
 open Verif.Gen.PrecTables Verif.Model.Front.Syn Verif.Model.Front.StrLit Verif.Proofs.Pratt
 
@@ -129,6 +130,20 @@ theorem expr_roundtrip_partial (e : Expr) (h : RT e) : parseAll (printE e) = som
   rt_roundtrip e h
 
 example : RT (.ident "x") := rt_example
+
+/-- `type_roundtrip`: for every type of the ports' type sub-language (nominal paths, optionals,
+    unauthorized references, arbitrarily nested) that the parser can produce (`Ty.wf`: the path is
+    non-empty and does not start with a keyword), the type parser port applied to the printed tokens —
+    as the lexer sees them: adjacent `?` `?` merged into `??` — returns the type.
+    Not in the sub-language (CC only, stream `pp type`): instantiation, function, dictionary, array,
+    intersection and authorized reference types (among them the recorded finding
+    `optional-of-reference-to-function-type`). -/
+theorem type_roundtrip (t : Ty) (h : t.wf = true) : parseTyAll (mergeQ (printTy t)) = some t :=
+  Verif.Proofs.PrattTy.ty_roundtrip t h
+
+example : (Ty.optional (.reference (.optional (.optional (.reference (.nominal ["A", "B"])))))).wf = true := by decide
+example : lexemes (mergeQ (printTy (.optional (.reference (.optional (.optional (.reference (.nominal ["A", "B"]))))))))
+    = ["&", "(", "&", "A", ".", "B", "??", ")", "?"] := by decide
 
 /-- `string_escape_roundtrip_partial`: un-escaping the quoted form of a string returns the string, for
     every string of runes that `QuoteString` writes without a `\u{…}` escape (printable ASCII, NUL,
